@@ -208,12 +208,10 @@ Lemma font_name_reject_unchanged :
   eval (e_get e) [] = Ok PNone /\ run (e_set e) (plain (PInt 5)) [] = ([], Err TypeErr).
 Proof. vm_compute. auto. Qed.
 
-(** Marker.size: c:size is added before its val is validated; afterwards the getter fails *)
-Lemma marker_size_reject_refuted :
+(** Marker.size: the value is validated before c:size is replaced: a refused value changes nothing *)
+Lemma marker_size_reject_unchanged :
   let e := entry_named "Marker.size" in
-  eval (e_get e) [] = Ok PNone
-  /\ snd (run (e_set e) (plain (PInt 1)) []) = Err ValueErr
-  /\ eval (e_get e) (fst (run (e_set e) (plain (PInt 1)) [])) = Err OtherErr.
+  eval (e_get e) [] = Ok PNone /\ run (e_set e) (plain (PInt 1)) [] = ([], Err ValueErr).
 Proof. vm_compute. auto. Qed.
 
 (** placeholder: assigning left creates a:off with y = 0, so top no longer reads the inherited value *)
@@ -228,6 +226,13 @@ Lemma placeholder_frame_refuted :
   /\ snd (run (e_set l) (plain (PInt 914400)) w_placeholder) = Ok tt
   /\ eval (e_get t) (fst (run (e_set l) (plain (PInt 914400)) w_placeholder)) = Ok (PInt 0)
   /\ e_indep l t = false.
+Proof. vm_compute. auto. Qed.
+
+(** position of an inheriting shape: a refused value adds no a:xfrm / a:off, the inherited readings stay *)
+Lemma placeholder_reject_unchanged :
+  let l := entry_named "_InheritsDimensions.left@sp" in
+  run (e_set l) (plain (PInt (-27273042329601))) w_placeholder = (w_placeholder, Err ValueErr)
+  /\ run (e_set l) (plain (PStr (s2l "abc"))) w_placeholder = (w_placeholder, Err TypeErr).
 Proof. vm_compute. auto. Qed.
 
 (** ColorFormat.theme_color: the member is validated before the colour is changed *)
